@@ -1,4 +1,5 @@
 import Prism.Proofs.C07
+import Prism.Proofs.C07Seg
 
 #print axioms Prism.C07_replay
 #print axioms Prism.C07_drain
@@ -6,3 +7,5 @@ import Prism.Proofs.C07
 #print axioms Prism.C07_jpeg
 #print axioms Prism.C07_webp
 #print axioms Prism.C07_auto
+#print axioms Prism.C07_any_segmentation
+#print axioms Prism.C07_any_segmentation_complete
